@@ -59,11 +59,15 @@ pub struct FState {
     pub bombs: bool,
     /// serde round trip in the alphabet (off where builds without `deser` must agree: C17)
     pub round_trip: bool,
+    /// a call has unwound from the middle on this history: what it was removing may be in any state the
+    /// implementation's order of steps leaves (no property says which), so from here on only plain
+    /// allocations are made (the per-allocation rules: no id twice, no occupied slot, not born removed)
+    pub tainted: bool,
 }
 
 fn key(s: &FState) -> u128 {
     let d = obs::debug_hash(&s.arena);
-    let x = obs::hash64(&(&s.cur, s.allocs));
+    let x = obs::hash64(&(&s.cur, s.allocs, s.tainted));
     d ^ ((x as u128) << 64 | obs::hash64(&(x, 7u8)) as u128)
 }
 
@@ -75,6 +79,12 @@ fn enabled(s: &FState, n_max: usize, a_max: usize) -> Vec<FOp> {
     let cnt = s.arena.count();
     let free = (0..cnt).filter(|&x| !live_by_flag(s, x)).count();
     let mut v = Vec::new();
+    if s.tainted {
+        if s.allocs < a_max + 2 {
+            v.push(FOp::New);
+        }
+        return v;
+    }
     if s.allocs < a_max && (free > 0 || cnt < n_max) {
         v.push(FOp::New);
         for x in 0..cnt {
@@ -159,7 +169,10 @@ fn apply(s: &FState, op: FOp) -> (FState, Outcome) {
             crate::payload::set_bomb(None);
             match r {
                 Ok(()) => Outcome::Unit,
-                Err(m) => Outcome::Panic(m),
+                Err(m) => {
+                    n.tainted = true;
+                    Outcome::Panic(m)
+                }
             }
         }
     };
@@ -246,7 +259,7 @@ fn alloc_judge(s: &FState, op: FOp, n: &FState, out: &Outcome) -> Vec<Failure> {
 /// Judges that need no model: J01 (C01), J02 + finite repeat-free iterators from every node the
 /// arena reports live (C02).
 fn judge(s: &FState, target: Props) -> (Vec<Failure>, bool) {
-    let obs = match guarded(|| if s.bombs { obs::observe_tolerant(&s.arena) } else { obs::observe(&s.arena) }) {
+    let obs = match guarded(|| if s.tainted { obs::observe_tolerant(&s.arena) } else { obs::observe(&s.arena) }) {
         Ok(o) => o,
         Err(m) => {
             return (vec![Failure {
@@ -259,6 +272,9 @@ fn judge(s: &FState, target: Props) -> (Vec<Failure>, bool) {
         }
     };
     let mut out = Vec::new();
+    if s.tainted {
+        return (out, true);
+    }
     if target & C01 != 0 {
         out.extend(judges::j01(&s.arena, &obs));
     }
@@ -320,7 +336,7 @@ pub fn explore(n_max: usize, a_max: usize, target: Props, threads: usize, deadli
     let t0 = Instant::now();
     let pool = rayon::ThreadPoolBuilder::new().num_threads(threads.max(1)).build().unwrap();
     // destructor bombs only where the judge is about links alone (C01)
-    let init = FState { arena: Arena::new(), cur: Vec::new(), allocs: 0, bombs, round_trip: target & crate::step::C17 == 0 };
+    let init = FState { arena: Arena::new(), cur: Vec::new(), allocs: 0, bombs, round_trip: target & crate::step::C17 == 0, tainted: false };
     let mut seen: HashSet<u128> = HashSet::new();
     seen.insert(key(&init));
     // (parent index, op) per state for path reconstruction
